@@ -45,13 +45,13 @@ def run(ctx):
         open(cases, "w").write(ctx.replay["case_record"]["line"] + "\n")
     else:
         for g in QUICK:
-            ctx.tlc("lex", "Scanner", "Scanner_c16_quick_%s.cfg" % g, cases_path=cases, timeout_s=900, workers=workers)
+            ctx.tlc("lex", "Scanner", "Scanner_c16_quick_%s.cfg" % g, cases_path=cases, timeout_s=3600, workers=workers)
         if ctx.tier == "thorough":
             for g in THOROUGH:
-                ctx.tlc("lex", "Scanner", "Scanner_c16_thorough_%s.cfg" % g, cases_path=cases, timeout_s=1500,
+                ctx.tlc("lex", "Scanner", "Scanner_c16_thorough_%s.cfg" % g, cases_path=cases, timeout_s=14400,
                         workers=workers)
     h = ctx.build_harness("lexh")
-    res = ctx.run_harness(h, ["c16"], cases, timeout_s=1800)
+    res = ctx.run_harness(h, ["c16"], cases, timeout_s=3600)
     ctx.tally(res, cases_path=cases)
     if not ctx.replay:
         fold(ctx, res)
